@@ -524,10 +524,10 @@ def raw_file_trace(tid, r):
     """A HEX / S19 file written by our own encoder, loaded by SPSDK."""
     fmt = r.choice(["HEX", "S19"])
     nseg = r.randrange(1, 4)
-    base = r.choice([0, 0x100, 0xFFF0, 0xFFFFF - 40, 0x10000000, 0x7FFFFFF0, 0x80000000, 0xFFFFF000, r.randrange(0, 0xFFFF0000)])
+    base = r.choice([0, 0x100, 0xFFF0, 0xFF00, 0x1FFF8, 0xFFFFF - 40, 0x10000000, 0x7FFFFFF0, 0x7FFFFF00, 0x80000000, 0xFFFFF000, r.randrange(0, 0xFFFF0000)])
     segs, cur = [], base
     for _ in range(nseg):
-        cur += r.choice([0, 1, 3, 16, 100, 255, 4096, 70000]) if segs else 0
+        cur += r.choice([0, 1, 3, 16, 100, 255, 600]) if segs else 0
         d = [r.randrange(256) for _ in range(r.choice([1, 2, 15, 16, 17, 32, 33, 100, 300]))]
         if cur + len(d) > 1 << 32:
             break
@@ -689,8 +689,9 @@ def canary(v):
 class Pipeline:
     """Counts, samples and validates batches of traces (so that a thorough run never holds all traces in memory)."""
 
-    def __init__(self, v, jobs):
-        self.v, self.jobs = v, jobs
+    def __init__(self, v, jobs, limit):
+        self.v, self.jobs, self.limit = v, jobs, limit
+        self.buf = []
         self.n_traces = self.n_events = self.n_fmt = self.outside = 0
         self.stats = []
         self.by_class = {}
@@ -709,6 +710,14 @@ class Pipeline:
         self.n_events += sum(len(t["ev"]) for t in traces)
         self.n_fmt += sum(1 for t in traces if any(e["a"] == "Load" for e in t["ev"]))
         self.outside += sum(1 for t in traces for e in t["ev"] if e["a"] == "Load" and e["fmt"] == "BIN" and e["textlike"] and e["res"] == "ok")
+        self.buf += traces
+        if len(self.buf) >= self.limit:
+            self.flush()
+
+    def flush(self):
+        v, traces, self.buf = self.v, self.buf, []
+        if not traces:
+            return
         rej, stats = ptv("C16", "BinImageTrace", [strip(t) for t in traces], jobs=self.jobs, timeout=2400, heap="3g",
                          env=TV_ENV)
         v.traces(len(traces))
@@ -750,7 +759,7 @@ def run(tier):
     for x in res[:-1]:
         v.add_mc(x)
     say(f"[C16] MC histories: {mc.distinct} states; TLC generation done ({v.timer.s()}s)")
-    pipe = Pipeline(v, jobs=8 if quick else 12)
+    pipe = Pipeline(v, jobs=8 if quick else 12, limit=10**9 if quick else 150000)
 
     # ---- every tree of the bounded space, replayed on real objects
     fmt_every = 12 if quick else 20
@@ -775,7 +784,7 @@ def run(tier):
 
             traces = pmap(do_tree, list(enumerate(part)), chunksize=256)
             pipe.feed(traces, sample_at=len(traces) // 2)
-            say(f"[C16] {off + len(part)} enumerated trees replayed on real BinaryImage objects and validated ({v.timer.s()}s)")
+            say(f"[C16] {off + len(part)} enumerated trees replayed on real BinaryImage objects ({v.timer.s()}s)")
         n_abstract += len(abstract)
 
     # ---- sampled trees beyond the enumerated space (depth 4, bigger numbers), valid-by-construction trees for the format lanes
@@ -799,7 +808,7 @@ def run(tier):
     n_raw = 500 if quick else 10000
     traces += pmap(lambda i: raw_file_trace(60000000 + i, rng(PROP, "raw", i)), range(n_raw), chunksize=64)
     pipe.feed(traces, sample_at=n_rand + 1)
-    say(f"[C16] {len(traces)} sampled trees / raw files replayed and validated ({v.timer.s()}s)")
+    say(f"[C16] {len(traces)} sampled trees / raw files replayed ({v.timer.s()}s)")
 
     # ---- histories: exhaustive on small menus, simulated on big menus, seeded random against the real objects
     hists = []
@@ -825,7 +834,8 @@ def run(tier):
             htraces += pmap(lambda i: random_history(50000000 + i, rng(PROP, "rhg", i), 12), range(n_rh), chunksize=64)
         pipe.feed(htraces, sample_at=len(htraces) - 1)
         n_hist += len(htraces)
-    say(f"[C16] {n_hist} histories ({len(hists)} generated by TLC) replayed and validated ({v.timer.s()}s)")
+    say(f"[C16] {n_hist} histories ({len(hists)} generated by TLC) replayed ({v.timer.s()}s)")
+    pipe.flush()
 
     v.sample(strip(good), limit=7)
     v.extra["tv_runs"] = pipe.stats
@@ -834,7 +844,7 @@ def run(tier):
     v.extra["file_round_trips"] = pipe.n_fmt
     v.extra["traces_by_class"] = pipe.by_class
     v.extra["bin_payloads_text_like_loaded_somehow"] = pipe.outside
-    say(f"[C16] {pipe.n_traces} traces, {pipe.n_events} events, {pipe.n_fmt} file round trips decided by TLC")
+    say(f"[C16] {pipe.n_traces} traces, {pipe.n_events} events, {pipe.n_fmt} file round trips decided by TLC ({v.timer.s()}s)")
     v.cov["rule"] = (
         f"trees = every tree of the bounded space enumerated by TLC ({n_abstract}: <= {3 if quick else 4} images, offsets/sizes/alignments/binary lengths from small menus) "
         f"+ {n_rand} seeded random trees (depth <= 4, offsets < 300, lengths <= 600, alignment 1..16, 8 patterns) + {n_pack} valid-by-construction trees; "
